@@ -9,7 +9,7 @@ import re
 from .cfg import forward
 from .must import Must, branch_atoms
 
-ALLOC_CALLS = re.compile(r"^(alloc|alloc_oneshot|alloc_reusable|alloc_reusable_zeroed|alloc_zeroed|_alloc_oneshot|_alloc_reusable|_alloc_reusable_zeroed|malloc|realloc|calloc|new_node_t|new_t)$")
+ALLOC_CALLS = re.compile(r"^(alloc|alloc_oneshot|alloc_reusable|alloc_reusable_zeroed|alloc_zeroed|_alloc_oneshot|_alloc_reusable|_alloc_reusable_zeroed|malloc|realloc|calloc|new_node_t|new_t|dup)$")
 
 
 def run(chk, units, rule="R-FAIL-PATH-PURE", floor=4):
@@ -177,3 +177,51 @@ def run_release_not_failed(chk, units, rule="R-RELEASE-NOT-FAILED", floor=1):
                               "released" % (" ".join(fn.text(i).split())[:60], arg),
                        key="releasefailed|%s|%s" % (fn.name.replace("asmjit::", ""), x["cn"]))
     chk.floor(rule + ":release-on-failure-sites", n, floor)
+
+
+COMMIT_CALLS = ("insert", "append", "append_unchecked", "push", "add")
+
+
+def run_commit_last(chk, unit, rex, rule="R-COMMIT-LAST", floor=5):
+    chk.rule(rule, "CodeHolder: once an entry was put into one of the holder's own containers (sections, labels, named labels, relocations, address "
+                   "table entries), no failing return of the same function can follow - the insertion is the last step that can fail, so a "
+                   "reported failure never leaves a half-registered entry behind")
+    from .cfg import load_functions
+    f = chk.facts(unit, funcs=rex)
+    n = 0
+    for fn in load_functions(f):
+        ret = fn.raw.get("ret") or ""
+        if "Error" not in ret and "*" not in ret:
+            continue
+        commits = [i for i, x in fn.calls(lambda x: x["k"] == "mcall" and x.get("cn") in COMMIT_CALLS and x.get("obj"))
+                   if (fn.access_path(fn.e(i)["obj"]) or "").startswith("this._")]
+        if not commits:
+            continue
+
+        def transfer(b, st, fn=fn, commits=commits):
+            for el in fn.blocks[b]["elems"]:
+                if isinstance(el, int) and el in commits:
+                    st = el
+            return st
+        IN, OUT = forward(fn, 0, transfer, lambda ss: max(ss))
+        bad = None
+        for b, idx, r in fn.return_sites():
+            st = IN.get(b, 0)
+            for el in fn.blocks[b]["elems"][:idx]:
+                if isinstance(el, int) and el in commits:
+                    st = el
+            x = fn.e(r)
+            v = fn.e(fn.strip(x["val"])) if x.get("val") else None
+            if v is None or v.get("cvn") == "kOk":
+                continue
+            fail = (v["k"] == "null" or (v.get("cvn") and v["cvn"] != "kOk") or (v["k"] in ("call", "mcall") and v.get("cn") in ("make_error", "report_error"))
+                    or (v["k"] == "ref" and "Error" in v.get("ty", "") and v.get("dk") in ("local", "parm")))
+            if st and fail and bad is None:
+                bad = (st, r)
+        for c in commits:
+            n += 1
+        chk.ob(rule, fn.name.replace("asmjit::", ""), bad is None, loc=fn.loc(bad[0]) if bad else "%s:%d" % (unit, fn.line),
+               detail="`%s` registers the entry and the failing return at line %d can still follow: after the reported failure the entry stays "
+                      "registered although the rest of the operation did not happen" % (" ".join(fn.text(bad[0]).split())[:60] if bad else "", fn.line_of(bad[1]) if bad else 0),
+               key="commitlast|%s" % fn.name.replace("asmjit::", ""))
+    chk.floor(rule + ":commit-sites", n, floor)
